@@ -34,7 +34,10 @@ RULE = (
     "ProbePixelated+ProbeParametric probe_params (top-level, nested aberration_coefs, re-assignment) / DirectPtychography "
     "(constructor, override, reconstruct twin runs), fit cases over random (C10, C12, phi12, rotation) in the identifiable "
     "domain on random bright-field masks and grids, end-to-end fit histories (3 fits + an unrelated reconstruct on one "
-    "DirectPtychography object built from a synthesised virtual bright-field stack). Every coefficient set is evaluated at 200 (quick) / 1000 (thorough) "
+    "DirectPtychography object built from a synthesised virtual bright-field stack), DirectPtychography histories "
+    "(edits of returned/passed dictionaries, rotation-only grid search followed by a second search / a fixed-override "
+    "search / a fit, each followed by a read-back and a reconstruct twin against a fresh instance), and the defocus alias "
+    "and a canonical coefficient carried by every accepted numeric form (42 forms x 7 entry points). Every coefficient set is evaluated at 200 (quick) / 1000 (thorough) "
     "random (alpha, phi) points plus axis points. Non-trivial = alpha>0 and at least one non-zero coefficient (alias: "
     "defocus != 0; fit: C10 != 0); distinct = (kind, symbol/label or coefficient-set id, scale)"
 )
@@ -46,6 +49,8 @@ ASSUMPTIONS = [
     "fit domain: |rotation| < pi/2 - 0.05, |C10| >= 20 A, 0 <= C12 <= 0.8 |C10| (the polar decomposition cannot identify a rotation for an indefinite aberration matrix), >= 5 bright-field pixels spanning both axes; phi12 is judged through (C12 cos 2phi12, C12 sin 2phi12), i.e. modulo pi and ignored when C12 = 0; bound 1e-4 relative (float32 internals, measured ~3e-7)",
     "end-to-end fit (fit_hyperparameters_cross_correlation on a stack synthesised by Fourier-translating one band-limited image by the predicted shifts, bin_factors=(2,1), default upsample 4): max shift 1.2-2.3 px, C12 <= 0.3 |C10|, |rotation| <= 1.2; accuracy is limited by the 1/4 px shift quantisation: measured floor over 330 scenes on the unchanged tree 2.8e-2 (coefficients, relative to |C10|) and 1.2e-2 rad; bounds 0.15 and 0.1 rad (a fit that measures only a residual is off by ~1); repeated fits with identical arguments are bit-identical on the unchanged tree and are judged at 0.1 / 0.05 rad (two fits within the floor of the truth differ by at most twice the floor)",
     "alias inputs never give both 'defocus' and 'C10' (contradictory input)",
+    "numeric forms of coefficient values: every scalar-like form all entry points accept on the unchanged tree (Python int/float, numpy float16/32/64 and (u)int8..64 scalars, 0-d arrays, array elements, 0-d torch tensors and tensor elements of float/int/uint8 dtypes); 1-element 1-D numpy arrays raise TypeError on the unchanged tree and are outside the domain; integer values up to 2**40 in magnitude (exact in float64)",
+    "direct_history: only values returned by accessors (aberration_coefs, current_aberrations) and the dictionary passed to the constructor are edited by the harness; the public dataclass fields of HyperparameterState are state, not copies, and are not edited; after a cross-correlation fit the fitted symbols C10/C12/phi12 are not judged",
     "standardize_aberration_coefs returns float32 tensors: coefficient values judged at 1e-5 relative (float32 rounding 6e-8); the surface of float32-rounded coefficients at 5e-5 of the sum of term magnitudes (rounded angles enter as m*dphi, hard limit 1.1e-6, measured 1.7e-7; a sign error of the alias is >= 1e-2)",
 ]
 BUDGET = {"quick": {"soft_s": 100}, "thorough": {"soft_s": 700}}
@@ -62,6 +67,9 @@ REQUIRED_COUNTERS = [
     "eval:fit_recovers",
     "eval:fit_e2e_recovers",
     "eval:fit_e2e_repeatable",
+    "eval:coefficients_survive_history",
+    "eval:history_reconstruct_twin",
+    "eval:alias_entry_points_agree",
 ]
 EXHAUSTIVE = {"quick": False, "thorough": False}
 
@@ -101,8 +109,13 @@ def plan(tier, seed):
         specs.append({"kind": "alias_direct", "rep": r})
     for r in range(300 if q else 90000):
         specs.append({"kind": "fit", "rep": r})
-    for r in range(42 if q else 420):
+    for r in range(28 if q else 420):
         specs.append({"kind": "fit_e2e", "rep": r})
+    for r in range(30 if q else 420):
+        specs.append({"kind": "direct_history", "rep": r})
+    for form in FORMS:
+        for r in range(3 if q else 60):
+            specs.append({"kind": "alias_forms", "form": form, "rep": r})
     rng = np.random.default_rng([seed, 12, 3])
     order = rng.permutation(len(specs))
     return [specs[0]] + [specs[i] for i in order if i != 0]
@@ -571,7 +584,7 @@ def run_alias_probe(spec, idx, ctx):
     wrong = cls.from_params({**twin_params, "C10": float(d)}, **kw)
     if cls_name == "ProbeParametric" and form != "reassign":
         pc = dict(model.aberration_coefs.items()) if hasattr(model, "aberration_coefs") else {}
-        got = float(pc["C10"]) if "C10" in pc else float("nan")
+        got = float(pc["C10"].detach()) if "C10" in pc else float("nan")
         ctx.close((got + float(d)) / abs(float(d)), 1e-5, "alias_defocus", lambda: "ProbeParametric learnable C10 = %r, expected %r" % (got, -float(d)), **{**f, "entry": "ProbeParametric.aberration_coefs"})
     if form != "reassign" or cls_name == "ProbePixelated":
         for mdl in (model, twin, wrong):
@@ -589,7 +602,7 @@ def run_alias_probe(spec, idx, ctx):
     ctx.observe(cls=cls_name, form=form, user=user, aberration_coefs=nz)
 
 
-def _make_dp(ctx, rng, aberration_coefs, rotation=0.0, gpts=None, scan=(10, 12)):
+def _make_dp(ctx, rng, aberration_coefs, rotation=0.0, gpts=None, scan=(10, 12), want_factory=False):
     st = ctx.state
     dpm, Dataset2d, Dataset3d = st["dpm"], st["Dataset2d"], st["Dataset3d"]
     gpts = gpts or (int(rng.integers(10, 21)), int(rng.integers(10, 21)))
@@ -609,11 +622,18 @@ def _make_dp(ctx, rng, aberration_coefs, rotation=0.0, gpts=None, scan=(10, 12))
             if sv[1] > 0.3 * sv[0]:
                 bf = keep
     nbf = int(bf.sum())
-    vbf = Dataset3d.from_array(rng.normal(size=(nbf, *scan)).astype(np.float32), sampling=(1.0, 0.4, 0.5), units=("index", "A", "A"))
-    mask = Dataset2d.from_array(bf, sampling=ks, units=("A^-1", "A^-1"))
+    data = rng.normal(size=(nbf, *scan)).astype(np.float32)
     energy = float(rng.choice([60e3, 80e3, 200e3, 300e3]))
     semiangle = rad * _lambda(energy) * 1e3  # mrad: the bright-field disc is the aperture
-    dp = dpm.DirectPtychography.from_virtual_bfs(vbf, mask, energy=energy, rotation_angle=rotation, aberration_coefs=aberration_coefs, semiangle_cutoff=semiangle, verbose=False, crop_bf_mask=False, rng=0)
+
+    def factory(coefs, rot):
+        vbf = Dataset3d.from_array(data.copy(), sampling=(1.0, 0.4, 0.5), units=("index", "A", "A"))
+        mask = Dataset2d.from_array(bf.copy(), sampling=ks, units=("A^-1", "A^-1"))
+        return dpm.DirectPtychography.from_virtual_bfs(vbf, mask, energy=energy, rotation_angle=rot, aberration_coefs=coefs, semiangle_cutoff=semiangle, verbose=False, crop_bf_mask=False, rng=0)
+
+    dp = factory(aberration_coefs, rotation)
+    if want_factory:
+        return dp, nbf, gpts, ks, factory
     return dp, nbf, gpts, ks
 
 
@@ -644,6 +664,175 @@ def run_alias_direct(spec, idx, ctx):
         ctx.check(cap[0].get("C10") == -d2, "alias_defocus", lambda: "reconstruct handed %r to evaluate_probe" % (cap[0],), **{**f, "form": "reconstruct_hook"})
     ctx.nontrivial(("alias_direct", spec["rep"]), d != 0 and d2 != 0)
     ctx.observe(user=user, constructor=got, override_defocus=d2, kernel=kernel, wrong_sign_distance=float((a - w).abs().max()) / scale, n_bf=nbf, gpts=gpts)
+
+
+def run_direct_history(spec, idx, ctx):
+    """the coefficients a DirectPtychography model was given keep describing the same surface across public calls
+    that do not set aberrations: edits of returned dictionaries, rotation-only searches, later searches/fits"""
+    st = ctx.state
+    dpm = st["dpm"]
+    rng = ctx.rng(idx)
+    user, exp, d = _alias_input(rng, allow_none=False)
+    if "C12" not in exp:  # construction-time astigmatism as well
+        exp["C12"], user["astigmatism"] = 17.5, 17.5
+    rot0 = float(rng.uniform(-0.5, 0.5))
+    given = dict(user)
+    dp, nbf, gpts, ks, factory = _make_dp(ctx, rng, given, rotation=rot0, want_factory=True)
+    variant = spec["rep"] % 3
+    f = {"kind": "direct_history", "entry": "DirectPtychography", "variant": ["search_search", "search_fit", "search_search_fixed"][variant]}
+    fitted = set()
+
+    def state_ok(step, extra=None):
+        want = dict(exp)
+        want.update(extra or {})
+        got = dp.aberration_coefs
+        g, w = _nz(got), {k: v for k, v in _nz(want).items()}
+        for k in fitted:  # symbols a fit legitimately re-estimated
+            g.pop(k, None)
+            w.pop(k, None)
+        ctx.check(g == w, "coefficients_survive_history", lambda: "after %s the model holds %r; it was constructed with %r (C10 = -defocus = %r)" % (step, got, user, -float(d)), step=step, **f)
+
+    def scribble(dct):
+        """the harness edits 'its' copy"""
+        if isinstance(dct, dict):
+            dct["C10"] = 4321.0
+            dct.pop("C12", None)
+            dct["C50"] = -7.0e6
+            dct["defocus"] = 99.0
+
+    state_ok("construction")
+    # (a) returned / passed dictionaries are the caller's: editing them must not edit the model
+    scribble(given)
+    state_ok("editing the dictionary that was passed to the constructor")
+    scribble(dp.aberration_coefs)
+    state_ok("editing the dictionary returned by aberration_coefs")
+    hs = dp.hyperparameter_state
+    if hasattr(hs, "current_aberrations"):
+        scribble(hs.current_aberrations())
+        state_ok("editing the dictionary returned by current_aberrations()")
+        ov = {"defocus": 55.0}
+        scribble(hs.current_aberrations(ov))
+        ctx.check(ov == {"defocus": 55.0}, "coefficients_survive_history", "current_aberrations(override) modified the override dictionary: %r" % (ov,), step="override argument", **f)
+        state_ok("editing the dictionary returned by current_aberrations(override)")
+    # kernels whose reconstruction is non-zero on these tiny scenes (single-sideband has no double-overlap region here: every
+    # trial loss is inf and the library's grid search then has no best trial)
+    kernel = str(rng.choice(["icom", "prlx"]))
+    a = dp.reconstruct(deconvolution_kernel=kernel, verbose=False).corrected_stack.clone()
+    fresh = factory(dict(exp), rot0)
+    b = fresh.reconstruct(deconvolution_kernel=kernel, verbose=False).corrected_stack.clone()
+    scale = float(b.abs().max()) or 1.0
+    ctx.close(float((a - b).abs().max()) / scale, 1e-5, "history_reconstruct_twin", lambda: "after the dictionary edits reconstruct() differs from a fresh instance built with the same coefficients (kernel %s)" % kernel, step="dictionary edits", **f)
+    # (b) rotation-only grid search, then another search / a fit
+    OP = getattr(dpm, "OptimizationParameter", None)
+    if OP is not None and hasattr(dp, "grid_search_hyperparameters"):
+        dp.grid_search_hyperparameters(rotation_angle=OP(rot0 - 0.2, rot0 + 0.2, n_points=2), deconvolution_kernel=kernel, verbose=False)
+        state_ok("a rotation-only grid search")
+        scribble(dp.aberration_coefs)
+        state_ok("editing aberration_coefs after the search")
+        r1 = float(dp.rotation_angle)
+        extra = {}
+        if variant == 0:
+            dp.grid_search_hyperparameters(rotation_angle=OP(r1 - 0.05, r1 + 0.05, n_points=2), deconvolution_kernel=kernel, verbose=False)
+            step = "a second rotation-only grid search"
+        elif variant == 2:
+            extra = {"C21": 333.0}
+            dp.grid_search_hyperparameters(aberration_coefs={"coma": 333.0}, rotation_angle=OP(r1 - 0.05, r1 + 0.05, n_points=2), deconvolution_kernel=kernel, verbose=False)
+            step = "a grid search with a fixed coma override after the rotation-only search"
+        else:
+            dp.fit_hyperparameters_cross_correlation(bin_factors=(1,), verbose=False)
+            fitted.update({"C10", "C12", "phi12"})
+            step = "a cross-correlation fit after the rotation-only search"
+        state_ok(step, extra)
+        if variant != 1:
+            r2 = float(dp.rotation_angle)
+            a = dp.reconstruct(deconvolution_kernel=kernel, verbose=False).corrected_stack.clone()
+            fresh = factory({**exp, **extra}, r2)
+            b = fresh.reconstruct(deconvolution_kernel=kernel, verbose=False).corrected_stack.clone()
+            scale = float(b.abs().max()) or 1.0
+            ctx.close(float((a - b).abs().max()) / scale, 1e-5, "history_reconstruct_twin", lambda: "after %s reconstruct() differs from a fresh instance built with the construction-time coefficients and rotation %r" % (step, r2), step=step, **f)
+    else:
+        ctx.hooks_missing.append("DirectPtychography.grid_search_hyperparameters")
+    ctx.nontrivial(("direct_history", variant, spec["rep"]), d != 0)
+    ctx.observe(user=user, expected=exp, variant=f["variant"], kernel=kernel, n_bf=nbf, final=dp.aberration_coefs, rotation=float(dp.rotation_angle))
+
+
+# ---- numeric forms of coefficient values -----------------------------------------------------------
+
+_INT_RANGES = {"int8": (-128, 127), "int16": (-32768, 32767), "int32": (-(2**31), 2**31 - 1), "int64": (-(2**63), 2**63 - 1), "uint8": (0, 255), "uint16": (0, 65535), "uint32": (0, 2**32 - 1), "uint64": (0, 2**64 - 1)}
+FORMS = ["py_int", "py_float"]
+FORMS += ["np.%s" % t for t in ("float16", "float32", "float64", *_INT_RANGES)]
+FORMS += ["np0d.%s" % t for t in ("float32", "float64", *_INT_RANGES)]
+FORMS += ["npelem.%s" % t for t in ("float32", "uint8", "uint16", "int16", "uint64")]
+FORMS += ["torch.%s" % t for t in ("float16", "float32", "float64", "int8", "int16", "int32", "int64", "uint8")]
+FORMS += ["torchelem.%s" % t for t in ("float32", "uint8", "int64")]
+
+
+def _form_value(ctx, rng, form, edge):
+    """a coefficient value in the given numeric form (magnitudes that make sense as Angstrom values)"""
+    torch = ctx.state["torch"]
+    lib, _, t = form.partition(".")
+    if form == "py_int":
+        return int(rng.integers(-3000, 3000)) or 5
+    if form == "py_float":
+        return float(rng.uniform(-3000, 3000))
+    if t.startswith("float"):
+        v = float(rng.uniform(-2000, 2000))
+    else:
+        lo, hi = _INT_RANGES[t]
+        if edge == 1:
+            v = hi if hi < 2**53 else 2**40  # large values stay exactly representable as float
+        elif edge == 2 and lo < 0:
+            v = lo if lo > -(2**53) else -(2**40)
+        else:
+            v = int(rng.integers(max(lo, -5000), min(hi, 5000) + 1)) or 1
+    if lib == "np":
+        return getattr(np, t)(v)
+    if lib == "np0d":
+        return np.array(v, dtype=t)
+    if lib == "npelem":
+        arr = np.array([v, v], dtype=t)  # e.g. one element of a focal-series array
+        return arr[1]
+    dt = getattr(torch, t)
+    if lib == "torch":
+        return torch.tensor(v, dtype=dt)
+    return torch.tensor([v, v], dtype=dt)[0]
+
+
+def run_alias_forms(spec, idx, ctx):
+    """C10 = -float(defocus) whatever numeric type carries the value, identically in every entry point"""
+    st = ctx.state
+    cp, validators, pm, dpm = st["cp"], st["validators"], st["pm"], st["dpm"]
+    rng = ctx.rng(idx)
+    form = spec["form"]
+    v = _form_value(ctx, rng, form, spec["rep"] % 3)
+    w = _form_value(ctx, rng, form, 0)  # a canonical coefficient in the same form
+    want = -float(v)
+    base = {"energy": 80e3, "semiangle_cutoff": 20.0}
+    f = {"kind": "alias_forms", "value_form": form.split(".")[0], "value_dtype": form.split(".")[-1], "signedness": "unsigned" if "uint" in form else "signed"}
+    results = {}
+
+    def entry(name, fn, tol=0.0):
+        out = fn()
+        got = float(out["C10"]) if "C10" in out else float("nan")
+        results[name] = got
+        err = abs(got - want) / max(abs(want), 1e-30)
+        ctx.close(err, tol if tol else 1e-15, "alias_defocus", lambda: "%s: defocus = %r (%s) gives C10 = %r, expected -float(value) = %r" % (name, v, form, got, want), entry=name, **f)
+        g30 = float(out["C30"]) if "C30" in out else float("nan")
+        ctx.close(abs(g30 - float(w)) / max(abs(float(w)), 1e-30), tol if tol else 1e-15, "alias_other_symbols", lambda: "%s: Cs = %r (%s) gives C30 = %r" % (name, w, form, g30), entry=name, **f)
+
+    entry("validate_aberration_coefficients", lambda: validators.validate_aberration_coefficients({"defocus": v, "Cs": w}))
+    entry("standardize_aberration_coefs", lambda: cp.standardize_aberration_coefs({"defocus": v, "Cs": w}), tol=1e-5)
+    entry("ProbePixelated.probe_params", lambda: pm.ProbePixelated.from_params({**base, "defocus": v, "Cs": w}, rng=0).probe_params["aberration_coefs"])
+    entry("ProbePixelated.probe_params[nested]", lambda: pm.ProbePixelated.from_params({**base, "aberration_coefs": {"defocus": v, "C30": w}}, rng=0).probe_params["aberration_coefs"])
+    entry("ProbeParametric.probe_params", lambda: pm.ProbeParametric.from_params({**base, "defocus": v, "C30": w}, rng=0, max_aberrations_order=1).probe_params["aberration_coefs"])
+    HS = getattr(dpm, "HyperparameterState", None)
+    if HS is not None:
+        entry("HyperparameterState(initial)", lambda: HS(initial_aberrations={"defocus": v, "Cs": w}).current_aberrations())
+        entry("HyperparameterState.current_aberrations(override)", lambda: HS(initial_aberrations={"C10": 1.0}).current_aberrations({"defocus": v, "Cs": w}))
+    vals = [x for k, x in results.items() if k != "standardize_aberration_coefs"]
+    ctx.check(all(x == vals[0] for x in vals), "alias_entry_points_agree", lambda: "entry points disagree on C10 for defocus = %r (%s): %r" % (v, form, results), **f)
+    ctx.nontrivial(("alias_forms", form, spec["rep"]), float(v) != 0.0)
+    ctx.observe(form=form, value=repr(v), expected_C10=want, results=results)
 
 
 # ---- fit ----------------------------------------------------------------------------------------
@@ -784,7 +973,7 @@ def run_fit_e2e(spec, idx, ctx):
 
 def run_case(spec, idx, ctx):
     k = spec["kind"]
-    fn = {"names": run_names, "onehot_polar": run_onehot_polar, "onehot_cart": run_onehot_cart, "dense": run_dense, "alias_fn": run_alias_fn, "alias_probe": run_alias_probe, "alias_direct": run_alias_direct, "fit": run_fit, "fit_e2e": run_fit_e2e}.get(k)
+    fn = {"names": run_names, "onehot_polar": run_onehot_polar, "onehot_cart": run_onehot_cart, "dense": run_dense, "alias_fn": run_alias_fn, "alias_probe": run_alias_probe, "alias_direct": run_alias_direct, "fit": run_fit, "fit_e2e": run_fit_e2e, "direct_history": run_direct_history, "alias_forms": run_alias_forms}.get(k)
     if fn is None:
         raise HarnessError("unknown case kind %r" % k)
     with np.errstate(all="ignore"):
